@@ -321,7 +321,9 @@ prop(
     design_ref="DESIGN.md section 3, C16",
     groups=[(["./plugin/action/throttle"], r"^(rebuildBuckets|\(\*simpleBuckets\)\.(rebuild\$1|add|get|reset)|\(\*inMemoryLimiter\)\.(isAllowed|rebuildBuckets)|\(\*limitersMap\)\.getOrAdd|\(bucketsMeta\)\.timeToBucketID)$"),
             (["./plugin/action/throttle"], r"^(\(\*distributedBuckets\)\.(add|get|reset|isEmpty|getDistrCount|rebuild|rebuild\$1)|\(\*simpleBuckets\)\.rebuild|\(bucketsMeta\)\.actualizeIndex|\(\*inMemoryLimiter\)\.(getDistrData|updateDistribution)|\(\*limitDistributions\)\.(getLimit|size|isEnabled|copy)|\(\*limitDistributionCfg\)\.isEmpty|parseLimitDistribution|\(LimitDistributionConfig\)\.toInternal|\(\*Plugin\)\.isAllowed|\(\*limitersMap\)\.(newLimiter|maintenance)|newBuckets|newBucketsMeta|newSimpleBuckets|newDistributedBucket|newDistributedBuckets|newInMemoryLimiter)$"),
-            (["./plugin/action/throttle", "./pipeline"], r"^\(\*rule\)\.isMatch$")],
+            (["./plugin/action/throttle", "./pipeline"], r"^\(\*rule\)\.isMatch$"),
+            (["./plugin/action/throttle"], r"^\(\*Plugin\)\.Start$"),
+            (["./xtime"], r"^parseUnixTime$")],
     claim=(
         "Rule selection and distribution (added): Plugin.isAllowed tries the rules in configuration order and asks exactly one limiter - that of the first matching rule and of the event's own throttle key - and passes the event when no rule matches; "
         "getDistrData gives a listed value its own slot and share limit, lets an unlisted value use the default slot while cur+val <= default limit and borrow a listed share only when cur+val <= that share's limit (the one with most room); "
@@ -346,7 +348,7 @@ prop(
     "C19",
     level="other",
     design_ref="DESIGN.md section 3, C19",
-    groups=[(["./pipeline"], r"^(\(\*Batch\)\.ForEach|\(\*Event\)\.reset)$"),
+    groups=[(["./pipeline"], r"^(\(\*Batch\)\.ForEach|\(\*Event\)\.(reset|Encode))$"),
             (["./plugin/output/elasticsearch"], r"^(\(\*Plugin\)\.(sendSplit|appendIndexName|appendEvent|out|out\$1|Start|Start\$1|send)|appendEscaped|prepareEndpoints)$"),
             (["./plugin/output/http", "./pipeline"], r"^(\(\*Plugin\)\.(sendSplit|out|out\$1)|\(\*(Raw|JSON)Encoder\)\.Encode)$"),
             (["./plugin/output/kafka", "./pipeline"], r"^\(\*Plugin\)\.(out|out\$1|Start|Start\$1)$"),
